@@ -57,6 +57,22 @@ class Translator:
         self.defs = []  # (name, lean term) in order, units.py
         self.known = set()
         self.opaque = {}
+        self.helpers = {}  # name -> (parameter names, return expression, source)
+
+    @staticmethod
+    def lean_name(name):
+        """private module names (leading underscore) get a Lean-friendly spelling"""
+        return "priv" + name if name.startswith("_") else name
+
+    def helper_def(self, st, src):
+        """`def name(p1, p2, ...): [docstring] return <expr>` -> inlinable helper, else None"""
+        a = st.args
+        if a.vararg or a.kwarg or a.kwonlyargs or a.posonlyargs or a.defaults or st.decorator_list:
+            return None
+        body = [b for b in st.body if not (isinstance(b, ast.Expr) and isinstance(b.value, ast.Constant) and isinstance(b.value.value, str))]
+        if len(body) != 1 or not isinstance(body[0], ast.Return) or body[0].value is None:
+            return None
+        return ([x.arg for x in a.args], body[0].value, src)
 
     # ---- symbols
     def new_sym(self, name, val):
@@ -72,7 +88,8 @@ class Translator:
         text = ast.get_source_segment(src, node)
         return _lit(text)
 
-    def expr(self, node, src):
+    def expr(self, node, src, env=None):
+        """env: parameter name -> Lean term, while the body of a helper function is being inlined"""
         if isinstance(node, ast.Constant):
             n, e = self.literal(node, src)
             if _smooth(n):
@@ -82,22 +99,37 @@ class Translator:
                 self.opaque[key] = self.new_sym("lit_%de%d" % (n, e), key)
             return "(.sym %d)" % self.opaque[key]
         if isinstance(node, ast.Name):
+            if env is not None and node.id in env:
+                return env[node.id]
             if node.id == "pi":
                 return "UExpr.pi"
             if node.id in self.known:
-                return node.id
+                return self.lean_name(node.id)
             raise Untranslatable("unknown name %s" % node.id)
         if isinstance(node, ast.BinOp):
             if isinstance(node.op, ast.Mult):
-                return "(.mul %s %s)" % (self.expr(node.left, src), self.expr(node.right, src))
+                return "(.mul %s %s)" % (self.expr(node.left, src, env), self.expr(node.right, src, env))
             if isinstance(node.op, ast.Div):
-                return "(.div %s %s)" % (self.expr(node.left, src), self.expr(node.right, src))
+                return "(.div %s %s)" % (self.expr(node.left, src, env), self.expr(node.right, src, env))
             if isinstance(node.op, ast.Pow):
                 k = self.int_const(node.right)
-                return "(.pow %s %s)" % (self.expr(node.left, src), _lean_int(k))
+                return "(.pow %s %s)" % (self.expr(node.left, src, env), _lean_int(k))
             raise Untranslatable("operator %s" % type(node.op).__name__)
         if isinstance(node, ast.Call) and isinstance(node.func, ast.Name) and node.func.id == "sqrt" and len(node.args) == 1 and not node.keywords:
-            return "(.sqrt %s)" % self.expr(node.args[0], src)
+            return "(.sqrt %s)" % self.expr(node.args[0], src, env)
+        if isinstance(node, ast.Call) and isinstance(node.func, ast.Name) and node.func.id in self.helpers:
+            # a helper `def f(a, b): return <arithmetic>` of the same module: inline the call
+            params, body, hsrc = self.helpers[node.func.id]
+            args = {}
+            for prm, a in zip(params, node.args):
+                args[prm] = self.expr(a, src, env)
+            for kw in node.keywords:
+                if kw.arg not in params or kw.arg in args:
+                    raise Untranslatable("call of %s: keyword %r" % (node.func.id, kw.arg))
+                args[kw.arg] = self.expr(kw.value, src, env)
+            if set(args) != set(params):
+                raise Untranslatable("call of %s: %d arguments for parameters %r" % (node.func.id, len(args), params))
+            return self.expr(body, hsrc, args)
         raise Untranslatable("expression %s" % ast.dump(node)[:200])
 
     @staticmethod
@@ -116,6 +148,14 @@ class Translator:
                 continue
             if isinstance(st, ast.Expr) and isinstance(st.value, ast.Constant) and isinstance(st.value.value, str):
                 continue  # docstring
+            if isinstance(st, ast.FunctionDef):
+                h = self.helper_def(st, self.su)
+                if h is None:
+                    raise Untranslatable("units.py: function %s at line %d is not `return <arithmetic expression>`" % (st.name, st.lineno))
+                self.helpers[st.name] = h  # translated (and checked) where it is called
+                continue
+            if isinstance(st, ast.AnnAssign) and isinstance(st.target, ast.Name) and st.value is not None:
+                st = ast.Assign(targets=[st.target], value=st.value, lineno=st.lineno)
             if not (isinstance(st, ast.Assign) and len(st.targets) == 1 and isinstance(st.targets[0], ast.Name)):
                 raise Untranslatable("units.py: statement at line %d" % st.lineno)
             name = st.targets[0].id
@@ -267,16 +307,36 @@ class Translator:
         raise Untranslatable("unit string expected")
 
     def conversion_table(self):
+        """the unit -> eV/A^2 table of get_force_constant_conversion_factor: a dict literal with string keys, bound to
+        any name inside the function or at module level, that the function subscripts"""
         fn = self._func(self.ctree, "get_force_constant_conversion_factor")
-        for st in ast.walk(fn):
-            if isinstance(st, ast.Assign) and isinstance(st.targets[0], ast.Name) and st.targets[0].id == "factor_to_eVperA2":
-                if not isinstance(st.value, ast.Dict):
-                    raise Untranslatable("factor_to_eVperA2 is not a dict literal")
-                rows = []
-                for k, v in zip(st.value.keys, st.value.values):
-                    rows.append((k.value, "(%s, %s)" % (self.unit_str(k.value), self.expr(v, self.sc))))
-                return rows
-        raise Untranslatable("factor_to_eVperA2 not found")
+        used = []
+        for n in ast.walk(fn):
+            if isinstance(n, ast.Subscript) and isinstance(n.value, ast.Name) and n.value.id not in used:
+                used.append(n.value.id)
+
+        def dict_of(name):
+            for scope in (ast.walk(fn), self.ctree.body):
+                for st in scope:
+                    tgt = None
+                    if isinstance(st, ast.Assign) and len(st.targets) == 1 and isinstance(st.targets[0], ast.Name):
+                        tgt, val = st.targets[0].id, st.value
+                    elif isinstance(st, ast.AnnAssign) and isinstance(st.target, ast.Name) and st.value is not None:
+                        tgt, val = st.target.id, st.value
+                    if tgt == name and isinstance(val, ast.Dict) and val.keys and all(
+                            isinstance(k, ast.Constant) and isinstance(k.value, str) for k in val.keys):
+                        return val
+            return None
+
+        tables = [(nm, dict_of(nm)) for nm in used]
+        tables = [(nm, d) for nm, d in tables if d is not None]
+        if len(tables) != 1:
+            raise Untranslatable("get_force_constant_conversion_factor: %d candidate unit tables (%r)" % (len(tables), [t[0] for t in tables]))
+        d = tables[0][1]
+        rows = []
+        for k, v in zip(d.keys, d.values):
+            rows.append((k.value, "(%s, %s)" % (self.unit_str(k.value), self.expr(v, self.sc))))
+        return rows
 
     def displacement_distance(self):
         fn = self._func(self.ctree, "get_default_displacement_distance")
@@ -315,10 +375,10 @@ class Translator:
         w("]")
         w("")
         for name, term in self.defs:
-            w("def %s : UExpr := %s" % (name, term))
+            w("def %s : UExpr := %s" % (self.lean_name(name), term))
         w("")
         w("def allDefs : List (String × UExpr) := [")
-        w(",\n".join("  (\"%s\", %s)" % (n, n) for n, _ in self.defs))
+        w(",\n".join("  (\"%s\", %s)" % (n, self.lean_name(n)) for n, _ in self.defs))
         w("]")
         w("")
         ids = [self.cname(c) for c in self.calc_names]
